@@ -21,13 +21,21 @@ CONFIG = {
                   "under any sort (order_by_depth_bounded), bgp_rec, jsonify (<= 2), populate_list~convert_rdf_object, "
                   "select~operators~check_exists (query operators, expressions and EXISTS patterns) for any number of named graphs, find_subject (log2), and the prettifier "
                   "(pretty_depth_bounded: <= 1 + 6 * nesting of quoted triples, collections, annotations AND anonymous "
-                  "blank nodes). (3) table_verdict / table_status / all_bounded lift this to the harness families of every "
+                  "blank nodes). (2b) the CALL GRAPH of the anchored files (114 functions, 155 calls, regenerated from the "
+                  "source text on every run, each call flagged descending = transcribed as passing a strict sub-structure): "
+                  "chain_depth_bounded - for every graph whose non-descending edges carry a strictly decreasing rank, every "
+                  "chain of nested calls has length <= nesting * (maxRank + 1) + rank, whatever data the functions loop "
+                  "over; call_graph_well_ranked decides that hypothesis on the regenerated graph (a self call on the rest "
+                  "of the data anywhere in the anchored files fails it: this replaces the assumedLinear convention as "
+                  "the verdict on unknown recursions), call_graph_chain_bounded is the resulting statement for today's "
+                  "/repo, chain_unbounded_without_rank shows the hypothesis is necessary. (3) table_verdict / table_status / all_bounded lift this to the harness families of every "
                   "size through those general theorems. The prettifier without a cap on [ ] nesting is NOT bounded by the "
                   "nesting of the data (pretty_full_refuted: a chain of n blank nodes = n plain statements needs 5n+1 nested "
                   "calls - the defect fixed in /repo da7f8f8); the repaired text walks the cut tree: "
-                  "pretty_repaired_depth_bounded (<= 1 + 6 * (data nesting + cap) for every tree), pretty_cap_present "
+                  "pretty_repaired_depth_bounded (<= 1 + 6 * (data nesting + cap) for every tree), pretty_repaired_deferred_bounded "
+                  "(the own tree of every deferred blank node, same bound), pretty_cap_present "
                   "(decided on the constant regenerated from _pretty.rs on every run), pretty_chain_bounded. "
-                  "Differential (not proof): that one active call costs one stack frame - 59 sites run the real operations "
+                  "Differential (not proof): that one active call costs one stack frame - 60 sites run the real operations "
                   "in child processes on std::thread::Builder::stack_size(2 MiB) at 2*10^5 (quick) / 10^3..10^6 (thorough) "
                   "elements, dev profile (release additionally in the thorough tier); the stack high-water mark at 100, 400 "
                   "and 1600 elements must show the model's growth (constant vs >= 16 bytes per element over both increments).",
@@ -35,8 +43,12 @@ CONFIG = {
                   "behaviour in release is observed, not modelled. The models are simplified copies (iterator = staged "
                   "matcher caches over index rows; select/convert_rdf_object/ORDER BY evaluation abstracted as functions; the "
                   "prettifier sees the tree its classification passes produce). A self call that the extractor does not "
-                  "know is modelled as one call per element (assumedLinear) - a convention, only reachable through a "
-                  "selfRecursiveOnData row. The recursion table is read off the source text by tools/extractors/c16.py "
+                  "know is modelled as one call per element (assumedLinear) - only reachable through a "
+                  "selfRecursiveOnData row, which table_all_bounded and call_graph_well_ranked both exclude on the "
+                  "regenerated tables. Trusted in the call graph: the text -> edge reading, that a call flagged "
+                  "descending really passes a strict sub-structure (the Chain hypothesis), and that calls across files "
+                  "/ through trait objects / closures stored in iterators are not edges (observed by the harness only: "
+                  "ArcExpression::eval -> select for EXISTS is driven by the sparql_exists site). The recursion table is read off the source text by tools/extractors/c16.py "
                   "(fail-closed on any self or mutual recursion in the anchored files that is not transcribed, and on a "
                   "self-calling `fn next` in any workspace crate, UFCS spellings included). Operations with quadratic running "
                   "time (pretty Turtle/TriG, multi-constant matchers, JSON-LD named-graph/list-seed bookkeeping, json-ld "
@@ -60,13 +72,15 @@ CONFIG = {
         "into_json_depth_bounded", "populate_convert_depth_bounded", "select_depth_bounded", "check_exists_depth_bounded",
         "pretty_depth_bounded", "pretty_full_refuted", "pretty_depth_bounded_partial", "pretty_chain_status",
         "pretty_repaired_depth_bounded", "pretty_repaired_props_bounded", "pretty_repaired_full", "cut_chain",
-        "pretty_cap_present", "pretty_chain_bounded",
+        "pretty_cap_present", "pretty_chain_bounded", "pretty_repaired_deferred_bounded",
+        "chain_depth_bounded", "call_graph_well_ranked", "call_graph_ids", "call_graph_chain_bounded",
+        "chain_unbounded_without_rank", "graph_rec_depth_le", "populate_rec_depth_le",
         "table_names_known", "table_all_bounded", "table_verdict", "table_refuted", "table_status",
         "all_bounded",
     ],
     "native_ok": [],
     "trivial_re": r"^site=\S+$",
-    "rule": "one request per (site, size, profile): 59 sites = every matching iterator of inmem with the closure matcher on "
+    "rule": "one request per (site, size, profile): 60 sites = every matching iterator of inmem with the closure matcher on "
             "every non-constant position (first / middle / last / graph name), the Fast* index orders, std Filter, "
             "n-constant slice matchers, remove_matching / retain_matching, N-Triples / N-Quads / Turtle / TriG / RDF-XML / "
             "JSON-LD serialisation (streaming and pretty; literals with n escapes; n statements / objects / subjects / "
